@@ -123,7 +123,34 @@ let es_handler (args : string list) : string =
        | _ -> main)
   | _ -> "?bad-ES"
 
+(* IC <z> : data::Int conversions *)
+let ic_handler (args : string list) : string =
+  match args with
+  | [a] ->
+      let zt = ZA.of_string a in
+      let z = z_of_zt zt in
+      let so o = (match o with Some v -> string_of_z v | None -> "none") in
+      let zmax s = z_of_zt (ZA.of_string s) in
+      let out = ref [] in
+      let add s = out := s :: !out in
+      (match int_of_i128 z with
+       | None -> add "int=none"
+       | Some i ->
+           add ("int=" ^ string_of_z (int_val i));
+           add ("u8=" ^ so (int_to_unsigned (zmax "255") i)); add ("u16=" ^ so (int_to_unsigned (zmax "65535") i));
+           add ("u32=" ^ so (int_to_unsigned (zmax "4294967295") i)); add ("u64=" ^ so (int_to_unsigned (zmax "18446744073709551615") i));
+           add ("u128=" ^ so (int_to_u128 i));
+           add ("i8=" ^ so (int_to_signed (zmax "127") i)); add ("i16=" ^ so (int_to_signed (zmax "32767") i));
+           add ("i32=" ^ so (int_to_signed (zmax "2147483647") i)); add ("i64=" ^ so (int_to_signed (zmax "9223372036854775807") i)));
+      if ZA.sign zt >= 0 then add ("fromu128=" ^ (match int_of_u128 z with Some i -> string_of_z (int_val i) | None -> "none"));
+      if ZA.geq zt (ZA.neg (ZA.shift_left ZA.one 63)) && ZA.lt zt (ZA.shift_left ZA.one 63) then add ("fromi64=" ^ string_of_z (int_val (int_of_i64 z)));
+      if ZA.sign zt >= 0 && ZA.lt zt (ZA.shift_left ZA.one 64) then add ("fromu64=" ^ string_of_z (int_val (int_of_unsigned (n_of_zt zt))));
+      if ZA.geq zt (ZA.of_int (-128)) && ZA.leq zt (ZA.of_int 127) then add ("fromi8=" ^ string_of_z (int_val (int_of_i64 z)));
+      String.concat ";" (List.rev !out)
+  | _ -> "?bad-IC"
+
 let () =
+  register "IC" ic_handler;
   register "ES" es_handler;
   register "E" e_handler;
   register "D" d_handler
